@@ -11,6 +11,7 @@ from lib import vlib
 from lib.vlib import cq_bytes, cq_list, cq_bool, cq_nat, cq_N
 
 SETUP_BUILDS = [{"name": "c14"}, {"name": "twin"}]
+COQ_TARGETS = ["Runner/Properties_C14.v", "Runner/StopCorr.v"]
 HEADER = "From Coq Require Import List NArith Bool.\nFrom V Require Import Common.Bytes Runner.Stop Runner.StopCorr.\nImport ListNotations.\nOpen Scope N_scope.\n"
 ALPHA = [b"a", b"b", b"c", b" ", b"\xc3", b"\xa9", b"\xe2", b"\x82", b"\xac", b"\xf0", b"\x9f", b"\x98", b"\x80", b"\xff", b"\xed", b"\xa0", b"\xc0", b"\xf4", b"\x90"]
 CHARS = ["a", "b", "c", " ", "é", "€", "😀", "ab", "ba", "\n"]
